@@ -39,11 +39,12 @@ var c09Methods = []string{
 }
 
 type c09Program struct {
-	Seed int64        `json:"seed"`
-	Defs [][2]string  `json:"defs"`
-	G    [][][]string `json:"g"`
-	Reps int          `json:"reps"`
-	CSP  bool         `json:"csp,omitempty"`
+	Seed  int64        `json:"seed"`
+	Defs  [][2]string  `json:"defs"`
+	G     [][][]string `json:"g"`
+	Reps  int          `json:"reps"`
+	CSP   bool         `json:"csp,omitempty"`
+	Tight bool         `json:"tight,omitempty"`
 }
 
 type c09Set struct {
@@ -365,6 +366,32 @@ func runC09(c *caseWriter) (string, bool, map[string]int) {
 		p.G = append(p.G, [][]string{{"S", "root", "", ""}, {"N", "root", "", ""}, {"T", "root", s.names()[1], "s2"}})
 		progs = append(progs, c09Encode(p))
 	}
+	// contention: every goroutine makes the SAME first call on the SAME member of a fresh set, many
+	// repetitions, so that the lookup / analysis / commit of one member is entered by several
+	// goroutines at once (a check-then-act on the analysis state that is split over two critical
+	// sections shows here); each method that analyses, each member (failing ones included)
+	contReps, contG := 40, 8
+	if tier == "thorough" {
+		contReps = 200
+	}
+	for si, s := range c09Pool {
+		for mi, nm := range s.names() {
+			if tier != "thorough" && !s.failing && (si+mi)%3 != 0 {
+				continue
+			}
+			for vi, op := range [][]string{{"T", "root", nm, "s1"}, {"E", nm, "", "s2"}, {"X", "root", nm, "l2"}} {
+				if tier != "thorough" && vi != (si+mi)%3 && !(s.failing && vi == 0) {
+					continue
+				}
+				p := c09Program{Seed: int64(1000 + 10*si + mi), Defs: s.defs, Reps: contReps, CSP: s.csp, Tight: true}
+				for g := 0; g < contG; g++ {
+					p.G = append(p.G, [][]string{op})
+				}
+				progs = append(progs, c09Encode(p))
+			}
+		}
+	}
+	n += len(progs)
 	for i := 0; len(progs) < n; i++ {
 		progs = append(progs, c09RandomProgram(i))
 	}
@@ -372,5 +399,5 @@ func runC09(c *caseWriter) (string, bool, map[string]int) {
 	for _, p := range progs {
 		emit(c, "conc", p)
 	}
-	return fmt.Sprintf("lockcheck: the 8 API methods of the property + the translator flag. conc: the canonical D9 witness, one all-members-first-execution program per set of a pool of %d sets (shared helpers, helpers in several contexts, failing members and their callers, recursive helpers, CSP), then random programs: 2-8 goroutines, 1-4 calls each from {Execute, ExecuteToHTML, ExecuteTemplate, ExecuteTemplateToHTML, Lookup, Templates, Name, DefinedTemplates} on members of ONE fresh set, start barrier, seeded Gosched yields; each program in its own process under go test -race, compared with the calls made one after another (3 orders; exhaustive linearisation search when the results are order dependent); non-trivial = results equal to the sequential ones", len(c09Pool)), false, map[string]int{"programs": len(progs)}
+	return fmt.Sprintf("lockcheck: the 8 API methods of the property + the translator flag. conc: the canonical D9 witness, one all-members-first-execution program per set of a pool of %d sets (shared helpers, helpers in several contexts, failing members and their callers, recursive helpers, CSP), contention programs (8 goroutines making the same first Execute / ExecuteTemplate / ExecuteTemplateToHTML call on the same member of a fresh set, spinning start barrier, 40 or 200 repetitions), then random programs: 2-8 goroutines, 1-4 calls each from {Execute, ExecuteToHTML, ExecuteTemplate, ExecuteTemplateToHTML, Lookup, Templates, Name, DefinedTemplates} on members of ONE fresh set, start barrier, seeded Gosched yields; each program in its own process under go test -race, compared with the calls made one after another (3 orders; exhaustive linearisation search when the results are order dependent); non-trivial = results equal to the sequential ones", len(c09Pool)), false, map[string]int{"programs": len(progs)}
 }
